@@ -571,7 +571,8 @@ TEXT = ("Held on every history observed: the index-support invariant is evaluate
         "~1.3 million (thorough) operations, and at the end of every history all queries, verify(), refresh/clone "
         "and 3-8 follow-up assignments are compared with a fresh manager that holds only the surviving "
         "definitions. Exploration over sampled histories."
-        ' Plus long churn histories (1100-1600 operations on one manager, ~600 removals, no refresh) for state that accumulates over many removals.')
+        ' Plus long churn histories (1100-1600 operations on one manager, ~600 removals, no refresh) for state that accumulates over many removals.'
+        " Directed families: tasks identified by a reference, re-definitions that print like the definition they replace (3 / Fraction(3), 0.5 / Decimal('0.5') / float32(0.5)) compared by typed structure, and tasks replaced by registering under an existing id (defect F23).")
 NOTE = ("Trusted: derivation of the index supports from public task attributes; the twin construction (copy of the "
         "current contents + registration of the surviving definitions in tasks order); the generator's record of "
         "which definitions survive.")
